@@ -58,6 +58,13 @@ Step ==
             /\ LET pre == A!ApplyAll(A!InitSt, SubSeq(b.calls, 1, Ev.i - 1)) IN
                drift1' = drift1 \cup F("calls", Ev.err = A!Fails(pre, b.calls[Ev.i]))
             /\ UNCHANGED <<st, b, rets, viol1, viols, drift, stats>>
+       [] Ev.ev = "state" ->
+            \* conformance: the state of the real Msg (address getters) after call i is the state of the model after call i
+            /\ LET post == A!ApplyAll(A!InitSt, SubSeq(b.calls, 1, Ev.i)) IN
+               drift1' = drift1 \cup F("state", /\ Ev.to = Pairs(post.To) /\ Ev.cc = Pairs(post.Cc) /\ Ev.bcc = Pairs(post.Bcc)
+                                                /\ Ev.from = Pairs(post.From) /\ Ev.env = Pairs(post.Env) /\ Ev.reply = Pairs(post.Reply)
+                                                /\ Ev.strings)
+            /\ UNCHANGED <<st, b, rets, viol1, viols, drift, stats>>
        [] Ev.ev = "fields" ->
             /\ viol1' = viol1 \cup FieldFlags(Ev)
             /\ stats' = [stats EXCEPT !.bccs = @ + Len(st.Bcc),
